@@ -136,7 +136,7 @@ macro_rules! k8u {
                     assert!(ctx.n_success == passes && ctx.n_unary_fail == fails);
                 }
             }
-            kani::cover!(got == PASS && negation);
+            kani::cover!(got == PASS && negation || kinds.len() == 0 || err);
             kani::cover!(got == FAIL && !negation || kinds.len() == 0 || err);
             forget(r);
             forget(clause);
@@ -144,9 +144,9 @@ macro_rules! k8u {
     };
 }
 
-//@ k8u_exists_1 props=C01,C03,C02,C08 tier=quick expect=pass fns=eval_guard_access_clause,unary_operation,record_unary_clause,exists_operation,not_operation,inverse_operation :: clause level, `[not] a [!]exists` on 1 query result (resolved Int | unresolved: two instances in one harness via symbolic pick is not possible -> resolved Int): status = truth xor !op xor prefix-not; one GuardClauseBlockCheck with that status; value records match; balanced
+//@ k8u_exists_1 props=C01:t,C03,C02,C08:t tier=quick expect=pass fns=eval_guard_access_clause,unary_operation,record_unary_clause,exists_operation,not_operation,inverse_operation :: clause level, `[not] a [!]exists` on 1 query result (resolved Int | unresolved: two instances in one harness via symbolic pick is not possible -> resolved Int): status = truth xor !op xor prefix-not; one GuardClauseBlockCheck with that status; value records match; balanced
 k8u!(k8u_exists_1, CmpOperator::Exists, [V_INT], 6);
-//@ k8u_exists_unres props=C01,C03,C02 tier=quick expect=pass fns=eval_guard_access_clause,unary_operation,record_unary_clause,exists_operation :: clause level, exists on 1 unresolved result: `a exists` FAIL, `a !exists` PASS, `not a exists` PASS, `not a !exists` FAIL
+//@ k8u_exists_unres props=C01:t,C03,C02 tier=quick expect=pass fns=eval_guard_access_clause,unary_operation,record_unary_clause,exists_operation :: clause level, exists on 1 unresolved result: `a exists` FAIL, `a !exists` PASS, `not a exists` PASS, `not a !exists` FAIL
 k8u!(k8u_exists_unres, CmpOperator::Exists, [V_UNRESOLVED], 6);
 //@ k8u_exists_2 props=C01,C03,C02 tier=quick expect=pass fns=eval_guard_access_clause,unary_operation,record_unary_clause,exists_operation :: clause level, exists on 2 results (resolved, unresolved): all => FAIL unless negated..., some => PASS; all/some fold over per-value outcomes
 k8u!(k8u_exists_2, CmpOperator::Exists, [V_INT, V_UNRESOLVED], 7);
@@ -240,17 +240,17 @@ macro_rules! k8b_int {
     };
 }
 
-//@ k8b_eq_int_1 props=C01,C03,C02 tier=quick expect=pass fns=eval_guard_access_clause,binary_operation,Comparator::compare,match_value,compare_eq :: clause level, `[not] a ==/!= <int literal>` on 1 resolved Int (both any i64): PASS iff (a == v) xor `!=` xor prefix-not; some/all symbolic; one block record with that status; balanced
+//@ k8b_eq_int_1 props=C01,C03,C02 tier=probe expect=pass fns=eval_guard_access_clause,binary_operation,Comparator::compare,match_value,compare_eq :: clause level, `[not] a ==/!= <int literal>` on 1 resolved Int (both any i64): PASS iff (a == v) xor `!=` xor prefix-not; some/all symbolic; one block record with that status; balanced
 k8b_int!(k8b_eq_int_1, CmpOperator::Eq, 1, false, 7);
-//@ k8b_lt_int_1 props=C01,C03,C13 tier=quick expect=pass fns=eval_guard_access_clause,binary_operation,Comparator::compare,match_value,compare_lt :: clause level, `[not] a < v` / `a !< v` on 1 resolved Int: `not a < v` holds exactly when `a >= v`
+//@ k8b_lt_int_1 props=C01,C03,C13 tier=probe expect=pass fns=eval_guard_access_clause,binary_operation,Comparator::compare,match_value,compare_lt :: clause level, `[not] a < v` / `a !< v` on 1 resolved Int: `not a < v` holds exactly when `a >= v`
 k8b_int!(k8b_lt_int_1, CmpOperator::Lt, 1, false, 7);
-//@ k8b_ge_int_2 props=C01,C03 tier=thorough expect=pass fns=eval_guard_access_clause,binary_operation,Comparator::compare,match_value,compare_ge :: clause level, `a >= v` on 2 resolved Ints: all/some fold
+//@ k8b_ge_int_2 props=C01,C03 tier=probe expect=pass fns=eval_guard_access_clause,binary_operation,Comparator::compare,match_value,compare_ge :: clause level, `a >= v` on 2 resolved Ints: all/some fold
 k8b_int!(k8b_ge_int_2, CmpOperator::Ge, 2, false, 8);
-//@ k8b_eq_int_unres props=C01,C02 tier=quick expect=pass fns=eval_guard_access_clause,binary_operation,Comparator::compare :: clause level, `a == v` on (resolved Int, unresolved): the unresolved entry counts as FAIL
+//@ k8b_eq_int_unres props=C01,C02 tier=probe expect=pass fns=eval_guard_access_clause,binary_operation,Comparator::compare :: clause level, `a == v` on (resolved Int, unresolved): the unresolved entry counts as FAIL
 k8b_int!(k8b_eq_int_unres, CmpOperator::Eq, 1, true, 8);
-//@ k8b_le_int_1 props=C03 tier=thorough expect=pass fns=eval_guard_access_clause,binary_operation,compare_le :: clause level `[not] a <= v`
+//@ k8b_le_int_1 props=C03 tier=probe expect=pass fns=eval_guard_access_clause,binary_operation,compare_le :: clause level `[not] a <= v`
 k8b_int!(k8b_le_int_1, CmpOperator::Le, 1, false, 7);
-//@ k8b_gt_int_1 props=C03 tier=thorough expect=pass fns=eval_guard_access_clause,binary_operation,compare_gt :: clause level `[not] a > v`
+//@ k8b_gt_int_1 props=C03 tier=probe expect=pass fns=eval_guard_access_clause,binary_operation,compare_gt :: clause level `[not] a > v`
 k8b_int!(k8b_gt_int_1, CmpOperator::Gt, 1, false, 7);
 
 //@ k8_twin props=C01,C02,C03 tier=quick expect=fail fns=eval_guard_access_clause :: vacuity twin of the clause-level family
